@@ -143,6 +143,18 @@ def merge_result(data, context, result, state, output_path=None):
     output_path = output_path if output_path else state.get("OutputPath", "$")
     return apply_path(output, context, output_path)
 
+class _Pending:
+    """
+    Marks a Map/Parallel result slot whose Branch/Iteration has not yet returned
+    a result. A dedicated object is used rather than None, because None (JSON
+    null) is a perfectly valid Branch/Iteration output and must count as a
+    received result, otherwise the join would wait for it forever.
+    """
+    def __repr__(self):
+        return "<PENDING>"
+
+PENDING = _Pending()
+
 class BranchMetadata:
     def __init__(self, context, timeout):
         """
@@ -956,7 +968,7 @@ class StateEngine(object):
 
                 # Check if all outstanding branches have been terminated
                 for i in range(start, end):
-                    if result[i] == None or result[i] == "__CAUGHT__":
+                    if result[i] is PENDING or result[i] == "__CAUGHT__":
                         """
                         If there isn't a result for this branch check if there
                         are pending Tasks, if there are then cancel the Task.
@@ -1067,7 +1079,7 @@ class StateEngine(object):
                 #print("Initialise the branch_results object")
                 length = branch_info["Length"]
                 all_branch_results[current_id] = {
-                    "results": [None]*length,
+                    "results": [PENDING]*length,
                     "ids": [None]*length,  # Unacknowledged messages
                     "state": [None]*length,
                 }
@@ -3105,7 +3117,7 @@ class StateEngine(object):
                     length = branch_info["Length"]
 
                 all_branch_results[current_id] = {
-                    "results": [None]*length,
+                    "results": [PENDING]*length,
                     "ids": [None]*length,  # Unacknowledged messages
                     "state": [None]*length,
                 }
@@ -3148,10 +3160,10 @@ class StateEngine(object):
             else:
                 end = len(result)
 
-            if not error and (None in result or "__CAUGHT__" in result):
+            if not error and (PENDING in result or "__CAUGHT__" in result):
                 if max_concurrency:
                     partial = result[start:end]
-                    if not (None in partial or "__CAUGHT__" in partial):
+                    if not (PENDING in partial or "__CAUGHT__" in partial):
                         """
                         If we've got all results for a batch of max_concurrency
                         send an event to re-enter the Map state and trigger
@@ -3244,7 +3256,7 @@ class StateEngine(object):
                         Iterators are Aborted so check branch_results["state"].
                         """
                         if branch_state[i] != None:
-                            if result[i] == None:
+                            if result[i] is PENDING:
                                 self.update_execution_history(
                                     state_machine,
                                     execution_arn,
